@@ -172,19 +172,35 @@ Crash ==
   /\ crashed' = cur.kind \o ":" \o ToString(cur.pc)
   /\ UNCHANGED <<rows, log, alog, snap, logOk, cur, base, nops, hist, vaultOk>>
 
-(* the normal open path *)
+(* the process dies inside the append of one record to the file-system    *)
+(* event log (the step create:2 / update:4 / delete:4): some byte prefix   *)
+(* of the record is at the tail of the file, which cannot be read as it is *)
+(* (sqlite appends in a transaction, nothing is torn there)                *)
+Tear ==
+  /\ cur # Idle /\ crashed = "no" /\ Backend = "fs"
+  /\ \/ cur.kind = "create" /\ cur.pc = 2
+     \/ cur.kind \in {"update", "delete"} /\ cur.pc = 4
+  /\ crashed' = cur.kind \o ":torn"
+  /\ logOk' = FALSE
+  /\ UNCHANGED <<rows, log, alog, snap, cur, base, nops, hist, vaultOk>>
+Torn == crashed \in {"create:torn", "update:torn", "delete:torn"}
+
+(* the normal open path.  Intended: a partial record at the tail of a log  *)
+(* is dropped (the log is the log before the operation); the code reads    *)
+(* the file as it is: deviation "TornTailNoRecovery"                        *)
 Recover ==
   /\ crashed # "no" /\ cur # Idle
   /\ cur' = Idle
   /\ rows' = IF "NoReconcile" \in Deviations \/ ~logOk THEN rows
              ELSE rows   \* intended: rebuilt from the log, see RecoveredVault
-  /\ UNCHANGED <<log, alog, snap, logOk, base, nops, crashed, hist, vaultOk>>
+  /\ logOk' = IF Torn /\ "TornTailNoRecovery" \notin Deviations THEN TRUE ELSE logOk
+  /\ UNCHANGED <<log, alog, snap, base, nops, crashed, hist, vaultOk>>
 
 Next == \/ \E k \in {"create", "update", "delete"}, s \in Slots, v \in Values \cup {None} :
               Begin(k, s, v)
         \/ Begin("compact", None, None)
         \/ Begin("forcemerge", None, None)
-        \/ Step \/ Crash \/ Recover
+        \/ Step \/ Crash \/ Tear \/ Recover
 
 Spec == Init /\ [][Next]_vars
 
